@@ -357,3 +357,132 @@ Proof.
     split; [exact L'|]. split; [|exact Nn].
     rewrite (z_clock_of_sod z _ _ S'). symmetry. apply z_clock_of_sod. reflexivity.
 Qed.
+
+(* ------------------------------------------------------------------ (4) the week window (repaired: AddDate(0,0,7)) *)
+Theorem dst_week_window : forall B D z t, zone_ok B D z -> 2 * B <= D ->
+  midnight_regular z (z_lday z t) = true ->
+  midnight_regular z (monday_of (z_lday z t)) = true ->
+  midnight_regular z (monday_of (z_lday z t) + 7) = true ->
+  let p := z_new_period_window_week z t in
+  pstart p <= t < pend p /\
+  pstart p = z_get_start_of_week z t 1 /\
+  z_lday z (pstart p) = monday_of (z_lday z t) /\ z_weekday_of z (pstart p) = 1 /\
+  z_clock_of z (pstart p) = (0, 0, 0) /\ nsec (pstart p) = 0 /\
+  z_lday z (pend p) = z_lday z (pstart p) + 7 /\ z_weekday_of z (pend p) = 1 /\
+  z_clock_of z (pend p) = (0, 0, 0) /\ nsec (pend p) = 0 /\
+  (forall x, pstart p <= x < pend p <-> monday_of (z_lday z t) <= z_lday z x < monday_of (z_lday z t) + 7) /\
+  pend p - pstart p = (7 * DAY_S - (zoff z (pend p) - zoff z (pstart p))) * NS /\
+  WEEK - 2 * B * NS <= pend p - pstart p <= WEEK + 2 * B * NS /\
+  pstart (z_new_period_window_week z (pend p)) = pend p.
+Proof.
+  intros B D z t HZ HD HX HM HE p. subst p. unfold z_new_period_window_week, pstart, pend. cbn [fst snd].
+  rewrite (z_start_of_week_cf B D z t 1 HZ HD ltac:(lia) HX). set (X := z_lday z t) in *.
+  destruct (week_day_spec X 1 ltac:(lia)) as (_ & _ & _ & W1 & _). rewrite W1.
+  assert (MB : monday_of X <= X < monday_of X + 7 /\ weekday_of_days (monday_of X) = 1 /\
+               weekday_of_days (monday_of X + 7) = 1 /\ week_day (monday_of X + 7) 1 = monday_of X + 7).
+  { unfold week_day, monday_of, weekday_of_days. lia. }
+  destruct MB as (MB & MW & MW7 & WD7). set (M := monday_of X) in *.
+  destruct (midnight_reads B D z M HZ HD HM) as (Ls & Ss & Ns & Os & _).
+  assert (EE : z_add_date z (z_midnight z M) 0 0 7 = z_midnight z (M + 7)).
+  { rewrite z_add_days_cf, Ls, Ss, Ns, Z.add_0_r, <- z_midnight_wall_inst. reflexivity. }
+  rewrite EE. clear EE.
+  destruct (midnight_reads B D z (M + 7) HZ HD HE) as (Le & Se & Ne & Oe & _).
+  set (s := z_midnight z M) in *. set (e := z_midnight z (M + 7)) in *.
+  pose proof (inst_diff z e s) as Df. rewrite Ls, Ss, Ns, Le, Se, Ne in Df.
+  pose proof (zoff_bound B D z s HZ) as Bs. pose proof (zoff_bound B D z e HZ) as Be.
+  pose proof (Os t) as Ost. pose proof (Oe t) as Oet. fold X in Ost, Oet.
+  split; [lia|]. split; [reflexivity|]. split; [exact Ls|]. split; [rewrite z_weekday_lday, Ls; exact MW|].
+  split; [rewrite (z_clock_of_sod z s 0 Ss); reflexivity|]. split; [exact Ns|].
+  split; [rewrite Le, Ls; reflexivity|]. split; [rewrite z_weekday_lday, Le; exact MW7|].
+  split; [rewrite (z_clock_of_sod z e 0 Se); reflexivity|]. split; [exact Ne|].
+  split; [intro x; pose proof (Os x); pose proof (Oe x); lia|].
+  split; [rewrite Df; zconsts; lia|]. split; [rewrite Df; zconsts; lia|].
+  rewrite (z_start_of_week_cf B D z e 1 HZ HD ltac:(lia)) by (rewrite Le; exact HE).
+  rewrite Le, WD7. reflexivity.
+Qed.
+
+(* ------------------------------------------------------------------ (5) next moment (repaired: time.Date(day + 1)) *)
+Lemma z_next_moment_cf : forall z t h m s,
+  let q := h * 3600 + m * 60 + s in
+  let mom := z_wall_inst z (z_lday z t) q in
+  z_get_next_moment z z t h m s = (if mom <=? t then z_wall_inst z (z_lday z t + 1) q else mom) /\
+  z_is_moment_passed z z t h m s = (mom <? t).
+Proof.
+  intros. subst q mom. unfold z_get_next_moment, z_is_moment_passed, z_wall_inst, z_date_of, z_lday.
+  destruct (date_of (zoff z t) t) as [[y mo] d] eqn:E. apply date_of_spec in E. destruct E as [[Hm _] Hn].
+  rewrite !go_date_z_valid by (zconsts; lia). rewrite days_from_civil_day, Hn, !Z.add_0_r.
+  set (M := resolve z (lday (zoff z t) t * DAY_S + (h * 3600 + m * 60 + s)) * NS).
+  unfold after, equal. split; [|apply Z.gtb_ltb].
+  destruct (Z.leb_spec M t) as [L|L].
+  - replace ((t >? M) || (t =? M)) with true; [reflexivity|].
+    symmetry. apply orb_true_iff. destruct (Z.eq_dec t M) as [e|Hne].
+    + right. apply Z.eqb_eq. exact e.
+    + left. apply Z.gtb_lt. lia.
+  - replace ((t >? M) || (t =? M)) with false; [reflexivity|].
+    symmetry. apply orb_false_iff. split; [rewrite Z.gtb_ltb; apply Z.ltb_ge; lia | apply Z.eqb_neq; lia].
+Qed.
+
+(* the civil day GetNextMoment lands on: tomorrow iff today's h:m:s is not after now *)
+Definition next_moment_day (z : zone) (t q : Z) : Z :=
+  if z_wall_inst z (z_lday z t) q <=? t then z_lday z t + 1 else z_lday z t.
+
+Theorem dst_next_moment : forall B D z t h m s, zone_ok B D z -> 2 * B <= D ->
+  0 <= h < 24 -> 0 <= m < 60 -> 0 <= s < 60 ->
+  let q := h * 3600 + m * 60 + s in
+  let Y := next_moment_day z t q in
+  wall_regular z (z_lday z t * DAY_S + q) = true ->
+  wall_regular z (Y * DAY_S + q) = true ->
+  let r := z_get_next_moment z z t h m s in
+  t < r /\ z_lday z r = Y /\ z_lday z t <= Y <= z_lday z t + 1 /\ z_clock_of z r = (h, m, s) /\ nsec r = 0 /\
+  r - t = ((Y - z_lday z t) * DAY_S + q - z_sod z t - (zoff z r - zoff z t)) * NS - nsec t /\
+  r - t <= DAY + 2 * B * NS /\
+  (forall x, r <= x <-> Y * DAY_S + q <= z_lday z x * DAY_S + z_sod z x) /\
+  (wall_regular z ((Y - 1) * DAY_S + q) = true ->
+     forall x, t < x -> z_clock_of z x = (h, m, s) -> nsec x = 0 -> r <= x) /\
+  (z_is_moment_passed z z t h m s = true -> Y = z_lday z t + 1) /\
+  (Y = z_lday z t <-> t < z_wall_inst z (z_lday z t) q) /\
+  z_is_moment_future z z t h m s = negb (z_is_moment_passed z z t h m s).
+Proof.
+  intros B D z t h m s HZ HD Hh Hm Hs q Y R1 RY r.
+  destruct (z_next_moment_cf z t h m s) as [CF PS]. fold q in CF, PS. fold r in CF.
+  assert (Hq : 0 <= q < DAY_S) by (unfold q; zconsts; lia).
+  assert (Cq : (q / 3600, q mod 3600 / 60, q mod 60) = (h, m, s)) by (unfold q; f_equal; [f_equal|]; lia).
+  set (X := z_lday z t) in *.
+  destruct (clock_reads B D z X q HZ HD Hq R1) as (L1 & S1 & N1 & O1 & U1).
+  destruct (clock_reads B D z Y q HZ HD Hq RY) as (LY & SY & NY & OY & UY).
+  set (mom := z_wall_inst z X q) in *.
+  assert (RE : r = z_wall_inst z Y q /\ X <= Y <= X + 1 /\ (mom <= t -> Y = X + 1) /\ (t < mom -> Y = X)).
+  { unfold Y, next_moment_day in *. fold X mom in CF |- *. rewrite CF.
+    destruct (Z.leb_spec mom t); repeat split; try reflexivity; lia. }
+  destruct RE as (RE & YB & Y1 & Y0). rewrite <- RE in LY, SY, NY, OY, UY.
+  pose proof (inst_diff z r t) as Df. rewrite LY, SY, NY in Df. fold X in Df.
+  pose proof (z_wall_split z t) as [_ St]. pose proof (t_split t) as [_ Nt].
+  pose proof (zoff_bound B D z r HZ) as Br. pose proof (zoff_bound B D z t HZ) as Bt.
+  pose proof (O1 t) as O1t. fold X in O1t. pose proof (OY t) as OYt. fold X in OYt.
+  assert (TR : t < r).
+  { destruct (Z.le_gt_cases mom t) as [C|C]; [specialize (Y1 C); zconsts; lia|].
+    specialize (Y0 C). rewrite RE, Y0. exact C. }
+  split; [exact TR|]. split; [exact LY|]. split; [exact YB|].
+  split; [rewrite (z_clock_of_sod z r q SY); exact Cq|]. split; [exact NY|].
+  split; [rewrite Df; zconsts; lia|].
+  split.
+  { rewrite Df. destruct (Z.le_gt_cases mom t) as [C|C]; [specialize (Y1 C)|specialize (Y0 C)];
+      clear - C Y1 Y0 O1t St Nt Br Bt Hq; zconsts; lia. }
+  split; [exact OY|].
+  split.
+  { intros RP x Hx Cx Nx.
+    destruct (clock_reads B D z (Y - 1) q HZ HD Hq RP) as (_ & _ & _ & OP & UP).
+    set (p := z_wall_inst z (Y - 1) q) in *.
+    unfold z_clock_of in Cx. apply clock_of_spec in Cx. destruct Cx as [Cx _]. fold (z_sod z x) in Cx. fold q in Cx.
+    apply OY. rewrite <- Cx.
+    destruct (Z.le_gt_cases Y (z_lday z x)) as [C|C]; [clear - C; zconsts; lia|exfalso].
+    assert (PT : p <= t).
+    { apply OP. fold X. destruct (Z.le_gt_cases mom t) as [C'|C']; [specialize (Y1 C')|specialize (Y0 C')];
+        clear - C' Y1 Y0 O1t St Hq; zconsts; lia. }
+    destruct (Z.eq_dec (z_lday z x) (Y - 1)) as [E|NE].
+    - rewrite (UP x E (eq_sym Cx) Nx) in Hx. lia.
+    - pose proof (OP x) as OPx. rewrite <- Cx in OPx. clear - OPx PT Hx C NE. zconsts. lia. }
+  split; [rewrite PS; intro P; apply Z.ltb_lt in P; apply Y1; lia|].
+  split; [split; [intro E; destruct (Z.le_gt_cases mom t) as [C|C]; [specialize (Y1 C); lia|exact C]|exact Y0]|].
+  reflexivity.
+Qed.
